@@ -33,6 +33,17 @@ func runC02(r *Run) {
 		Spec{Name: "map-realcoll-T256", Kind: "map-small", T: 256, Keys: 1, Extra: map[string]int{"realcoll": 3}, Classes: []string{"t", "s60"}, Oracles: append([]string{"struct"}, or...)},
 		Spec{Name: "map-nodedup-T256", Kind: "map-small", T: 256, Keys: 3, Classes: []string{"limM", "A:t"}, Oracles: or, Depth: nd, Extra: map[string]int{"nodedup": 1}},
 	)
+	// histories with commit / reopen events inside (the map is operated on after being decoded from its
+	// registers; differential against the event-free history), and maps that are themselves values of a map
+	evd := 6
+	if r.Thorough() {
+		evd = 8
+	}
+	specs = append(specs,
+		Spec{Name: "map-events-T256-K4", Kind: "map-small", T: 256, Keys: 4, Classes: []string{"t", "limM"}, Oracles: []string{"twin", "ev:commit1", "ev:creopen"}, Depth: evd},
+		Spec{Name: "map-of-maps-T256", Kind: "nested", T: 256, Keys: 2, Classes: []string{"t", "h", "M"}, Oracles: []string{"sem", "reopen", "events"},
+			Extra: map[string]int{"rootmap": 1, "lr": 2, "lc": 2, "maxc": 3, "depth": 2}},
+	)
 	r.ExploreSpecs(specs)
 	// multi-level trees with caller-placed digests: new smallest key, keys between any two
 	// adjacent slabs, removal of a slab's first key, above the last key
